@@ -866,3 +866,24 @@ def check_body_frame(ctx, rule="DEP-frame"):
   if n == 0:
     raise AnalysisError("_process_element: no recursive call receives the document body (anchor changed)")
   return n
+
+
+def check_clone_pruning(ctx, rule="CLONE-prune"):
+  """The per-region clone of the document (built once, used for every later snapshot) may leave out
+  content only because of its region association.  A decision taken from a specified style value
+  (display, visibility, opacity ...) is wrong for every time at which animation, or an initial value,
+  gives the element another value: a `return None` in the copying function whose condition reads a
+  style of the source element is reported."""
+  ix = ctx.ix
+  outer = ix.func("ttconv.isd:_clone_doc_with_one_region")
+  ctx.unit(outer.module)
+  n = 0
+  for f in [outer] + list(outer.nested.values()):
+    for g in own_nodes(f.node):
+      if isinstance(g, ast.If) and isinstance(g.body[-1], ast.Return) and (g.body[-1].value is None or (isinstance(g.body[-1].value, ast.Constant) and g.body[-1].value.value is None)):
+        n += 1
+        reads_style = [c for c in ast.walk(g.test) if isinstance(c, ast.Call) and isinstance(c.func, ast.Attribute) and c.func.attr in ("get_style", "has_style", "iter_styles")]
+        ctx.check(not reads_style, rule, f"{f.qualname}|{short(g.test, 60)}", ctx.where(f.module, g), "content is left out of the clone by region association only",
+                  f"`{short(g.test, 80)}` leaves an element out of the per-region clone because of a specified style value: the clone is reused for every time, "
+                  "so an animation step (or initial value) that changes the style later has nothing to act on")
+  return n
